@@ -67,7 +67,44 @@ class ResizeOrderSpec(Spec):
         return ev == 'scan'
 
 
+class LimitSpec(Spec):
+    """a file that is scanned for reusable chunks is scanned whole: a reader limited with take(n) hides what lies beyond n
+    (a block device that holds the wanted chunks behind the new image's length, a prior output that was longer)"""
+    adt = FILE
+    states = ('Whole', 'Limited')
+    init_state = 'Whole'
+    rebind = ('limit',)
+
+    def event(self, b, t, q, argi):
+        if q == AR + 'take' and argi == 0:
+            return 'limit'
+        if q == SCAN and argi == 1:
+            return 'scan'
+        return None
+
+    def delta(self, s, ev):
+        return 'Limited' if ev == 'limit' else s
+
+    def checkpoint(self, ev):
+        return ev == 'scan'
+
+
 def run(facts):
+    ts3 = TypeState(facts, LimitSpec())
+    lim_inst, lim_find = [], []
+    from .r_flush import _user_name as _un
+    n_scans = 0
+    for b in facts.bodies.values():
+        for root in ts3.roots(b):
+            r, ex = ts3.analyse_owner(b, root)
+            scans = [(st, loc, oc) for (ev, st, loc, oc) in r.records if ev == 'scan']
+            n_scans += len(scans)
+            for st, loc, oc in scans:
+                if st == 'Limited':
+                    name = _un(b, root)
+                    lim_find.append({'rule': 'R-CURSOR', 'key': 'R-CURSOR|%s|scan-limited:%s' % (b.q, name), 'function': b.q,
+                                     'what': '`%s` is scanned for reusable chunks at %s through a reader limited with take(..): chunks it holds beyond that '
+                                             'limit are not found and are fetched again' % (name, loc)})
     ts = TypeState(facts, CursorSpec())
     ts2 = TypeState(facts, ResizeOrderSpec())
     instances, findings = [], []
@@ -99,6 +136,7 @@ def run(facts):
                     findings.append({'rule': 'R-CURSOR', 'key': 'R-CURSOR|%s|%s' % (b.q, name), 'function': b.q,
                                      'resource': name, 'scan_at': loc,
                                      'what': 'chunk scan of `%s` may start away from offset 0 (cursor moved by an earlier seek/read)' % name})
+    findings += lim_find
     seen, out = set(), []
     for x in findings:
         if x['key'] not in seen:
